@@ -445,6 +445,100 @@ func checkArr2(prop string) func(a Arr, st *stats.Collector) error {
 	}
 }
 
+// ---- part 2b: the 3-chunk scope with two channels: every file of 3 chunks x 0-2 messages x log times {0..3}
+// x channels {/a,/b} (73^3 = 389017 arrangements), read with each single-topic selection and without, in all
+// three orders, plus one window. Between parts 1 and 2 this is where "a third chunk overlaps the first two
+// and a topic filter hides some of its messages" lives. Complete in the thorough tier; the quick tier takes a
+// seed-phased 1/40 stride.
+func enumArr3(full bool) func(yield func(Arr) bool) {
+	return func(yield func(Arr) bool) {
+		sh, nsh := shardInfo()
+		per := chunkCodes(8, 2) // 73
+		dec := func(code int) ([]uint64, []int) {
+			v := decodeChunkCode(code, 8, 2)
+			ts := make([]uint64, len(v))
+			cs := make([]int, len(v))
+			for i, x := range v {
+				ts[i] = uint64(x % 4)
+				cs[i] = x / 4
+			}
+			return ts, cs
+		}
+		phase := int((seedInt() * 7) % 40)
+		n, idx := 0, 0
+		for c1 := 0; c1 < per; c1++ {
+			t1, ch1 := dec(c1)
+			for c2 := 0; c2 < per; c2++ {
+				t2, ch2 := dec(c2)
+				for c3 := 0; c3 < per; c3++ {
+					n++
+					if !full && n%40 != phase {
+						continue
+					}
+					idx++
+					if idx%nsh != sh {
+						continue
+					}
+					t3, ch3 := dec(c3)
+					if !yield(Arr{Chunks: [][]uint64{t1, t2, t3}, Chans: [][]int{ch1, ch2, ch3}}) {
+						return
+					}
+				}
+			}
+		}
+	}
+}
+
+func checkArr3(a Arr, st *stats.Collector) error {
+	file, producer, wUsed, err := buildArr(a)
+	if err != nil {
+		return pk.Failf("harness", "cannot build arrangement: %v", err)
+	}
+	d, err := specdec.Decode(file, specdec.Options{})
+	if err != nil {
+		return pk.Failf("harness", "reference decoder rejects %s output: %v", producer, err)
+	}
+	pl := placementOf(d)
+	all := wUsed.Messages()
+	reads := 0
+	read := func(topics []string, window bool, order mcap.ReadOrder) error {
+		opts := []mcap.ReadOpt{mcap.InOrder(order)}
+		s, e := uint64(0), uint64(0)
+		if window {
+			s, e = 1, 3
+			opts = append(opts, mcap.AfterNanos(s), mcap.BeforeNanos(e))
+		}
+		if topics != nil {
+			opts = append(opts, mcap.WithTopics(topics))
+		}
+		label := fmt.Sprintf("%s topics=%v window=%v order=%d", producer, topics, window, order)
+		r := readOrdered(file, opts...)
+		reads++
+		if !r.Clean() {
+			return pk.Failf("read-error", "%s: panic=%q open=%v err=%v", label, r.Panic, r.OpenErr, r.Err)
+		}
+		return checkSelection(label, r.Items, wl.Select(all, topics, s, e, !window), pl, order)
+	}
+	for _, topics := range [][]string{nil, {"/a"}, {"/b"}} {
+		for _, order := range []mcap.ReadOrder{mcap.LogTimeOrder, mcap.ReverseLogTimeOrder, mcap.FileOrder} {
+			if err := read(topics, false, order); err != nil {
+				return err
+			}
+		}
+	}
+	for _, order := range []mcap.ReadOrder{mcap.LogTimeOrder, mcap.ReverseLogTimeOrder} {
+		if err := read([]string{"/a"}, true, order); err != nil {
+			return err
+		}
+	}
+	nontrivial := pl.overlap || pl.ties
+	st.Case(wl.Hash(a), nontrivial, reads, "part2b", "producer="+producer)
+	if nontrivial && st.WantSample() {
+		st.Sample(a)
+	}
+	return nil
+}
+
 // ---- part 3: random larger files
 
 type C03Case struct {
@@ -611,4 +705,5 @@ func TestC03(t *testing.T) {
 func TestC03Exhaustive(t *testing.T) {
 	pk.RunEnum(t, "C03x1", enumArr(pk.Thorough()), checkArr)
 	pk.RunEnum(t, "C03x2", enumArr2(), checkArr2("C03"))
+	pk.RunEnum(t, "C03x3", enumArr3(pk.Thorough()), checkArr3)
 }
